@@ -351,6 +351,7 @@ func c19(r *core.Run) {
 	batchStagingRules(r, "C19.B2")
 	byteWrapLint(r, "C19.L2", "pkg/shed", "pkg/shed/leveldb")
 	c19MustStage(r, funcs)
+	c19SkipStart(r)
 	c19PrefixAlias(r, funcs)
 	c19ReverseBound(r)
 	c19Iteration(r)
